@@ -1204,6 +1204,7 @@ func TestVerifC19(t *testing.T) {
 	c19CaseSensitivity(cc)
 	c19InputRequired(cc)
 	c19StructuredDecode(env.NewCases(res, "structured-documents-no-panic"))
+	c19Deep(env.NewCases(res, "deeply-nested-documents"))
 	c19Fuzz(env, res, env.Pick(5, 6))
 	_ = io.EOF
 	env.Finish(res)
